@@ -554,8 +554,16 @@ func heapFields(c *Ctx, f *ssa.Function, v ssa.Value, depth int) map[string]*ir.
 
 // freeVarBinding: the origin (in parent's terms) of the value a closure's free variable is bound to.
 func freeVarBinding(c *Ctx, parent, cb *ssa.Function, e *ir.Expr) string {
+	if be := freeVarBoundExpr(c, parent, cb, e); be != nil {
+		return be.String()
+	}
+	return ""
+}
+
+// freeVarBoundExpr: the origin (in parent's terms) of the value a closure's free variable is bound to; nil when unknown.
+func freeVarBoundExpr(c *Ctx, parent, cb *ssa.Function, e *ir.Expr) *ir.Expr {
 	if e == nil || e.Op != "free" {
-		return ""
+		return nil
 	}
 	idx := -1
 	for i, fv := range cb.FreeVars {
@@ -564,7 +572,7 @@ func freeVarBinding(c *Ctx, parent, cb *ssa.Function, e *ir.Expr) string {
 		}
 	}
 	if idx < 0 {
-		return ""
+		return nil
 	}
 	for _, b := range parent.Blocks {
 		for _, in := range b.Instrs {
@@ -577,16 +585,16 @@ func freeVarBinding(c *Ctx, parent, cb *ssa.Function, e *ir.Expr) string {
 				if refs := al.Referrers(); refs != nil {
 					for _, rf := range *refs {
 						if st, ok := rf.(*ssa.Store); ok && st.Addr == ssa.Value(al) {
-							return c.W.ExprOf(st.Val).String()
+							return c.W.ExprOf(st.Val)
 						}
 					}
 				}
-				return ""
+				return nil
 			}
-			return c.W.ExprOf(bv).String()
+			return c.W.ExprOf(bv)
 		}
 	}
-	return ""
+	return nil
 }
 
 // itemIdentity (A12.item-identity): a listed stream is reported with exactly the parties of its key. The
@@ -698,6 +706,14 @@ func itemIdentityFields(c *Ctx, parent, cb *ssa.Function, ret *ssa.Return, rk st
 		}
 		// <addr>.String()
 		addr := v
+		boundAddr := ""
+		if addr.Op == "free" {
+			// the spelling prepared once before the callback (`sender := senderAddr.String()`): the address it was taken from, in
+			// the enclosing function's terms
+			if be := freeVarBoundExpr(c, parent, cb, addr); be != nil && (be.Op == "invoke" || be.Op == "call") && strings.HasSuffix(be.Name, ".String") && len(be.Args) >= 1 {
+				boundAddr = c.W.ResolveCaptured(be.Args[0]).String()
+			}
+		}
 		if addr.Op == "invoke" || addr.Op == "call" {
 			if strings.HasSuffix(addr.Name, ".String") && len(addr.Args) >= 1 {
 				addr = addr.Args[0]
@@ -725,6 +741,9 @@ func itemIdentityFields(c *Ctx, parent, cb *ssa.Function, ret *ssa.Return, rk st
 			}
 			return mentionsParser(w.ExpandKeep(e, 3, func(f *ssa.Function) bool { return isStreamKeyParser(f) }))
 		}
+		sameAddr := func(x *ir.Expr) bool {
+			return x.String() == addr.String() || boundAddr != "" && (x.String() == boundAddr || freeVarBinding(c, parent, cb, x) == boundAddr)
+		}
 		okID := isParsed(addr)
 		why := "parsed from the entry's key"
 		if !okID {
@@ -734,7 +753,7 @@ func itemIdentityFields(c *Ctx, parent, cb *ssa.Function, ret *ssa.Return, rk st
 					return false
 				}
 				a, b := p.E.Args[0], p.E.Args[1]
-				return isParsed(a) && b.String() == addr.String() || isParsed(b) && a.String() == addr.String()
+				return isParsed(a) && sameAddr(b) || isParsed(b) && sameAddr(a)
 			}, 1)
 			why = "compared for equality with the parsed address"
 		}
@@ -751,7 +770,7 @@ func itemIdentityFields(c *Ctx, parent, cb *ssa.Function, ret *ssa.Return, rk st
 				}
 				if (k.Op == "call" || k.Op == "invoke") && strings.HasSuffix(k.Name, "AccAddress).Equals") && len(k.Args) == 2 {
 					a, b := k.Args[0], k.Args[1]
-					if isParsed(a) && b.String() == addr.String() || isParsed(b) && a.String() == addr.String() {
+					if isParsed(a) && sameAddr(b) || isParsed(b) && sameAddr(a) {
 						okID = true
 					}
 				}
@@ -760,6 +779,9 @@ func itemIdentityFields(c *Ctx, parent, cb *ssa.Function, ret *ssa.Return, rk st
 		if !okID {
 			// (c) the prefix store iterated was opened with this address
 			bound := freeVarBinding(c, parent, cb, addr)
+			if boundAddr != "" {
+				bound = boundAddr
+			}
 			for _, ps := range prefixStores(c, parent) {
 				// (the address as the function that opened the store spells it, a captured variable resolved to what it was given)
 				if as := addr.String(); w.Expand(w.ResolveCaptured(w.Expand(ps, 2)), 2).Any(func(z *ir.Expr) bool { return z.String() == as }) {
@@ -1051,6 +1073,25 @@ func filterComplete(c *Ctx, site *ssa.Call, cbv ssa.Value, storeIdx int, generic
 			})
 		}
 		pureF := func(e *ir.Expr) bool { return mentionsF(e) && !mentionsItem(e) }
+		parsedAsAddress := func(mentions func(*ir.Expr) bool) bool {
+			for p := mc.Parent(); p != nil; p = p.Parent() {
+				for _, b := range p.Blocks {
+					for _, in := range b.Instrs {
+						call, ok := in.(*ssa.Call)
+						if !ok || call.Common().StaticCallee() == nil || len(call.Common().Args) != 1 {
+							continue
+						}
+						switch call.Common().StaticCallee().Name() {
+						case "AccAddressFromBech32", "ValAddressFromBech32", "ConsAddressFromBech32":
+							if mentions(w.Expand(w.ExprOf(call.Common().Args[0]), 2)) {
+								return true
+							}
+						}
+					}
+				}
+			}
+			return false
+		}
 		isConst := func(e *ir.Expr) bool { return e.Op == "const" || e.Op == "zero" }
 		m := func(p ir.Pred) bool {
 			if op, x, y, ok := p.Cmp(); ok {
@@ -1083,6 +1124,11 @@ func filterComplete(c *Ctx, site *ssa.Call, cbv ssa.Value, storeIdx int, generic
 			}
 			short := e.Name[strings.LastIndex(e.Name, ".")+1:]
 			if short != "EqualFold" && short != "Equal" && short != "Equals" {
+				return false
+			}
+			if short == "EqualFold" && !parsedAsAddress(mentionsF) && !foldsExactly(c, e, ir.ModuleOf(cb)) {
+				// two free texts that merely fold to the same letters are different values: the item does not agree with the
+				// request (only a bech32 address, which the request parser has accepted, means the same in either case)
 				return false
 			}
 			item, reqf := false, false
@@ -1151,4 +1197,39 @@ func isStreamKeyParser(f *ssa.Function) bool {
 		}
 	}
 	return true
+}
+
+// foldsExactly: a case-insensitive comparison that can only succeed on equal values, because one side is written in one
+// case only: a stored field that holds a bech32 address (some code of the module parses it as one), or the name of an
+// enumeration constant (String() of a named integer type).
+func foldsExactly(c *Ctx, e *ir.Expr, m string) bool {
+	if e.Call == nil {
+		return false
+	}
+	for _, a := range e.Call.Common().Args {
+		switch x := a.(type) {
+		case *ssa.UnOp:
+			if fa, ok := x.X.(*ssa.FieldAddr); ok {
+				if parsed, _ := addressFieldUse(c, m, ptrElem(fa.X.Type()).String(), ir.FieldName(fa.X.Type(), fa.Field)); parsed != "" {
+					return true
+				}
+			}
+		case *ssa.Field:
+			if parsed, _ := addressFieldUse(c, m, x.X.Type().String(), ir.FieldName(x.X.Type(), x.Field)); parsed != "" {
+				return true
+			}
+		case *ssa.Call:
+			cc := x.Common()
+			var recv types.Type
+			if sc := cc.StaticCallee(); sc != nil && sc.Name() == "String" && sc.Signature.Recv() != nil {
+				recv = sc.Signature.Recv().Type()
+			}
+			if recv != nil {
+				if b, ok := ptrElem(recv).Underlying().(*types.Basic); ok && b.Info()&types.IsInteger != 0 {
+					return true
+				}
+			}
+		}
+	}
+	return false
 }
